@@ -427,12 +427,10 @@ func ruleC17RootShapes(c *Ctx) {
 		c.unresolved("pathext.IsRoot compares its argument with %d literals (expected 4)", len(names))
 	}
 	for _, s := range names {
+		// a prefix test (`HasPrefix(p.root, "/")`) also holds for longer roots ("/data"), so it does not single out the
+		// root spelled exactly that way: only an equality (or case label) counts
 		ok := handled[s]
-		for _, p := range prefixes {
-			if s != "" && strings.HasPrefix(s, p) {
-				ok = true
-			}
-		}
+		_ = prefixes
 		c.verdictIf(ok, rule, san, fmt.Sprintf("root shape %q", s), san.Decl.Pos(),
 			"the normaliser has a branch for this root spelling", fmt.Sprintf("pathext.IsRoot treats %q as root but getSanitizedPath has no branch for a root spelled that way", s))
 	}
